@@ -17,6 +17,10 @@ func init() {
 
 func actionMenu(witness *spec) func(h *H, c call) []answer {
 	return func(h *H, c call) []answer {
+		if c.ph == pExec && c.node.hasFallback() && c.node != witness {
+			// the result may also come from a recovering fallback after failed attempts
+			return []answer{{val: nil}, {err: errExec[c.attempt]}}
+		}
 		if c.ph != pPost {
 			return []answer{{val: nil}}
 		}
@@ -38,6 +42,11 @@ func genC18(tier string) []Scenario {
 			if wrapInFlow {
 				unit = &spec{id: "inner", flow: &flowSpec{start: n, edges: map[*spec]map[flyt.Action]*spec{}}}
 				kn = "Flow(" + kn + ")"
+				if k%2 == 1 {
+					// the inner flow ends through EXPLICIT nil connections instead of missing ones
+					unit.flow.edges[n] = map[flyt.Action]*spec{flyt.DefaultAction: nil, "x": nil}
+					kn = "Flow-nil-ended(" + kindNames[k] + ")"
+				}
 			}
 			// Run directly
 			out = append(out, lifecycleScenario(fmt.Sprintf("action kind=%s place=Run", kn), unit, placeDirect, actionMenu(nil)))
@@ -61,6 +70,19 @@ func genC18(tier string) []Scenario {
 						execMenu: okOrErrMenu, postMenu: posts, noPost: noPost, inFlow: inFlow, bound: bd, chkAction: true}
 					out = append(out, sc.scenario())
 				}
+			}
+		}
+	}
+	// a cancelled batch either fails or still reports a proper action
+	for n := 1; n <= 2; n++ {
+		for _, c := range []int{0, 2} {
+			for _, inFlow := range []bool{false, true} {
+				sc := batchScn{name: fmt.Sprintf("action batch-cancelled n=%d c=%d inFlow=%v", n, c, inFlow), n: n, c: c, budget: 1, shape: shResults, yield: c > 0,
+					execMenu: okMenu, postMenu: posts, inFlow: inFlow, bound: 0, chkAction: true, cancel: cancelSpec{kind: 1, lazy: true}}
+				out = append(out, sc.scenario())
+				sc.name += " before-run"
+				sc.cancel = cancelSpec{kind: 1, before: true}
+				out = append(out, sc.scenario())
 			}
 		}
 	}
